@@ -201,6 +201,52 @@ func runC18(c *Ctx) {
 		c.R.Check(bad == "", "R18.23", "the lexer compares runes exactly (no case folding)", cpPkg, fmt.Sprintf("%d functions of the lexer package: no call of a case-folding function", nF),
 			bad+": a delimiter is recognised in another spelling than the language's - text that is code (\"x =BEGIN_MARK\") opens a comment, or a comment is closed early (\"=End\")")
 	}
+	// R18.24 the end of the input is known from the offset, not from the decoded rune: utf8.RuneError is what the decoder returns
+	// for the end of the input AND for every invalid byte AND for a literal U+FFFD - a function of the lexer that compares a
+	// decoded rune with it also looks at the width (the second result), or lexing stops at the first such byte and the comments
+	// behind it are lost.
+	{
+		bad := ""
+		nD := 0
+		for _, fn := range pkgFuncs(p, cpPkg) {
+			for _, b := range fn.Blocks {
+				for _, in := range b.Instrs {
+					bo, ok := in.(*ssa.BinOp)
+					if !ok || (bo.Op != token.EQL && bo.Op != token.NEQ) {
+						continue
+					}
+					var other ssa.Value
+					if k, isK := core.ConstInt(bo.Y); isK && k == 0xFFFD {
+						other = bo.X
+					} else if k, isK := core.ConstInt(bo.X); isK && k == 0xFFFD {
+						other = bo.Y
+					}
+					if other == nil {
+						continue
+					}
+					nD++
+					// the width of the same decode is used somewhere
+					widthUsed := false
+					if ex, isEx := core.Unspill(other).(*ssa.Extract); isEx {
+						for _, r := range *ex.Tuple.Referrers() {
+							if e2, ok := r.(*ssa.Extract); ok && e2.Index == 1 && e2.Referrers() != nil {
+								for _, u := range *e2.Referrers() {
+									if _, isDbg := u.(*ssa.DebugRef); !isDbg {
+										widthUsed = true
+									}
+								}
+							}
+						}
+					}
+					if !widthUsed && bad == "" {
+						bad = core.ShortFn(fn) + " at " + p.Pos(bo.Pos())
+					}
+				}
+			}
+		}
+		c.R.Check(bad == "", "R18.24", "a decoded rune is compared with utf8.RuneError only together with its width", cpPkg, fmt.Sprintf("%d comparisons with utf8.RuneError", nD),
+			"a rune is compared with utf8.RuneError without its width ("+bad+"): an invalid byte or a U+FFFD character in code or in a string is taken for the end of the input, and every comment behind it is lost")
+	}
 	defStyle := ""
 	image := map[string][]string{}
 	styleOf := map[string]string{}
@@ -634,6 +680,35 @@ func runC18(c *Ctx) {
 			c.R.Check(len(missing) == 0, "R18.12", "lex: the languages whose quotes are plain text are all the languages of their comment style", p.Pos(lex.Pos()),
 				"string syntax is skipped for "+strings.Join(ex, ", ")+"; no other language shares their comment style",
 				"string syntax is skipped for "+strings.Join(ex, ", ")+" but not for "+strings.Join(missing, ", ")+": in such a file an apostrophe or quotation mark opens a \"string\" that hides the comments behind it")
+		}
+		// ... and the markup languages have no string literals at all (a fact about HTML and Markdown, kept here): each of them
+		// is exempted by the lexer, or QuoteCharacter answers no for every quote character the lexer asks about
+		if qc != nil && len(qc.Params) == 2 && nSites > 0 {
+			bad := ""
+			nM := 0
+			for _, l := range langs {
+				if l.Name() != "HTML" && l.Name() != "Markdown" {
+					continue
+				}
+				nM++
+				if exempt[l.Name()] {
+					continue
+				}
+				for _, q := range []rune{'"', '\'', '`'} {
+					res, err := ce.Eval(qc, []constant.Value{l.Val(), constant.MakeInt64(int64(q))})
+					if err != nil || len(res) < 1 || res[0].Kind() != constant.Bool {
+						bad += l.Name() + " (" + string(q) + ": not evaluated) "
+						continue
+					}
+					if constant.BoolVal(res[0]) {
+						bad += l.Name() + " (" + string(q) + ") "
+					}
+				}
+			}
+			if nM > 0 {
+				c.R.Check(bad == "", "R18.12", "lex: no quote character opens a string in HTML and Markdown", p.Pos(lex.Pos()), "exempted by the lexer, or QuoteCharacter is false for \" ' and `",
+					"a quote character still opens a string literal in "+strings.TrimSpace(bad)+": prose with an unbalanced quotation mark hides the <!-- --> comments behind it")
+			}
 		}
 	}
 
